@@ -124,6 +124,15 @@ impl serde::Serialize for HrProbe {
     }
 }
 
+struct HrDeProbe(bool);
+impl<'de> serde::Deserialize<'de> for HrDeProbe {
+    fn deserialize<D: serde::Deserializer<'de>>(d: D) -> Result<Self, D::Error> {
+        let hr = d.is_human_readable();
+        let _ = <bool as serde::Deserialize>::deserialize(d)?;
+        Ok(HrDeProbe(hr))
+    }
+}
+
 // ------------------------------------------------------------------------------------------------
 // one API call
 // ------------------------------------------------------------------------------------------------
@@ -165,6 +174,7 @@ enum Prepared {
     Decode(Vec<u8>),
     SetHr(bool),
     UseHr,
+    UseHrDe,
     SetName(Box<dyn SchemaNameValidator + Send + Sync>),
     SetNs(Box<dyn SchemaNamespaceValidator + Send + Sync>),
     SetSym(Box<dyn EnumSymbolNameValidator + Send + Sync>),
@@ -186,6 +196,8 @@ fn prepare(o: &Op) -> Prepared {
             Prepared::Decode(d)
         }
         (true, "humanReadable") => Prepared::SetHr(k == 1),
+        // the flag is consulted by the serializer (arg 0) and by the deserializer (arg 1)
+        (false, "humanReadable") if k == 1 => Prepared::UseHrDe,
         (false, "humanReadable") => Prepared::UseHr,
         (true, "nameValidator") => Prepared::SetName(Box::new(CandName(k))),
         (true, "namespaceValidator") => Prepared::SetNs(Box::new(CandNs(k))),
@@ -227,6 +239,10 @@ fn execute(p: Prepared, alias: bool) -> i64 {
         Prepared::UseHr => match apache_avro::to_value(HrProbe) {
             Ok(Value::Boolean(b)) => b as i64,
             _ => -2,
+        },
+        Prepared::UseHrDe => match apache_avro::from_value::<HrDeProbe>(&Value::Boolean(true)) {
+            Ok(p) => p.0 as i64,
+            Err(_) => -2,
         },
         Prepared::SetName(b) => set_schema_name_validator(b).is_ok() as i64,
         Prepared::SetNs(b) => set_schema_namespace_validator(b).is_ok() as i64,
@@ -444,7 +460,7 @@ fn gen_op(rng: &mut Rng, t: usize, n: usize, cells: &[usize], maxcands: &[usize]
             (base + rng.below(3)).saturating_sub(1)
         }
         (true, "humanReadable") => rng.below(2),
-        (false, "humanReadable") => 0,
+        (false, "humanReadable") => rng.below(2),
         (true, _) => t,
         (false, _) => rng.below(n + 1), // marker 0..n
     };
